@@ -311,14 +311,14 @@ class TranscriptInterval(AbstractFeatureInterval):
     def to_dict(self, chromosome_relative_coordinates: bool = True) -> Dict[str, Any]:
         """Convert to a dict usable by :class:`biocantor.io.models.TranscriptIntervalModel`."""
         if chromosome_relative_coordinates:
-            exon_starts = self._genomic_starts
-            exon_ends = self._genomic_ends
+            exon_starts = list(self._genomic_starts)
+            exon_ends = list(self._genomic_ends)
         else:
             exon_starts, exon_ends = list(zip(*((x.start, x.end) for x in self.relative_blocks)))
         if self.cds:
             if chromosome_relative_coordinates:
-                cds_starts = self.cds._genomic_starts
-                cds_ends = self.cds._genomic_ends
+                cds_starts = list(self.cds._genomic_starts)
+                cds_ends = list(self.cds._genomic_ends)
                 cds_frames = [f.name for f in self.cds.frames]
             else:
                 cds_starts, cds_ends = list(zip(*([x.start, x.end] for x in self.chunk_relative_cds_blocks)))
